@@ -7,9 +7,14 @@
          K c|s|p   iter_chunks/sentences/paragraphs  -> "P" | the lengths of the pieces
          H         [Token]::span()                   -> "N" | "P" | "a b"
          G         LongSentences spans               -> "P" | "a-b .."
+         E <pat>   end to end, plain English: the MODEL lexes the source (document_plain, ASCII tables), takes kind-id /
+                   flags / leaf bits of each token from the given tokens (by span start), lints -> "P" |
+                   "<ranges as L> ; <spans as G>" | "T <model spans>" when the model's tokens are not the given ones
    pattern syntax (prefix): p i | f b | x n c.. | a | w | c n c.. | s k (n c..)* | e o | q | n |
      S k pats | E k pats | A k pats | N k pats | M k pats | R req pat | I pat | C pat | T o pat |
-     X k pats | d | Z k pats k pats | P o | W k (n c.. pat)*                                        *)
+     X k pats | d | Z k pats k pats | P o | W k (n c.. pat)*
+   and, without sections:  B <RuleName> <n>   "can a non-zero match of this rule's pattern (generated table
+         rule_table, Model/Tables_rulebodies.v) be n tokens long?"  -> "ok" | "impossible" | "unknown-rule"    *)
 let lbits = ref [||]
 let obits = ref [||]
 let title_true : (int * int, unit) Hashtbl.t = Hashtbl.create 16
@@ -89,6 +94,15 @@ let () =
     if String.length l = 0 then print_newline () else
     try
       match split_bar l with
+      | [ hd ] when String.length hd > 2 && String.sub hd 0 2 = "B " ->
+          (match words hd with
+           | [ _; name; n ] ->
+               let codes = List.init (String.length name) (fun i -> n_of_int (Char.code name.[i])) in
+               (match rule_len_possible rule_table codes (nat_of_int (int_of_string n)) with
+                | Some true -> print_endline "ok"
+                | Some false -> print_endline "impossible"
+                | None -> print_endline "unknown-rule")
+           | _ -> print_endline "?")
       | hd :: tk :: src :: rest ->
           let ints = ints_of_line tk in
           let toks = toks_of 0 ints in
@@ -124,6 +138,24 @@ let () =
                         base := !base + List.length c) cs per_chunk;
                     print_endline (String.concat " " (List.rev !out))
                 | _ -> print_endline "P")
+           | "E" :: pw ->
+               let (p, _) = p_pat pw in
+               (match e2e_spans src with
+                | Panic _ -> print_endline "P"
+                | Ok sps when not (List.length sps = List.length toks && List.for_all2 (fun sp t -> sp = t.tspan) sps toks) ->
+                    print_endline ("T " ^ String.concat " " (List.map show_span sps))
+                | Ok _ ->
+                    let table = List.map (fun t -> (t.tspan.sstart, t)) toks in
+                    (match iter_chunks toks, e2e_lint leaf oracle table p src with
+                     | Ok cs, Ok (per_chunk, ls) ->
+                         let base = ref 0 in
+                         let out = ref [] in
+                         List.iter2 (fun c rs ->
+                             List.iter (fun (a, b) ->
+                                 out := Printf.sprintf "%d-%d" (!base + int_of_nat a) (!base + int_of_nat b) :: !out) rs;
+                             base := !base + List.length c) cs per_chunk;
+                         print_endline (String.concat " " (List.rev !out) ^ " ; " ^ String.concat " " (List.map show_span ls))
+                     | _ -> print_endline "P"))
            | [ "K"; which ] ->
                let r = (match which with "c" -> iter_chunks toks | "s" -> iter_sentences toks | _ -> iter_paragraphs toks) in
                (match r with
